@@ -22,6 +22,8 @@ def run(ctx):
     wrappers.r_heur(ctx)
     mosekprog.r_heur_objective(ctx)
     wrappers.r_mainvars(ctx)
+    from . import translate
+    translate.r_leafreg(ctx)     # the instance handed back after a heuristic is the one the post-solve assignment builds: a factor of (the projection of) the last Gram matrix, whatever extra argument the routine takes
     c16.r_options(ctx)
     root = common.solve_root(ctx.repo)
     na, nb = common.r_argbind(ctx, {root.name}, why=" (tolerance, regularisation, heuristic and verbosity reach the solve root under their own names)")
